@@ -421,6 +421,24 @@ def gen_kids_history(rng, k=None, ns=None):
             else: emit("flush")
     emit("end")
 
+def gen_procwatch_history(rng, ops=None):
+    """process watches of the toplevel instance (default event loop) on children that have exited already (delivery deferred
+    to the next loop turn) or are still running: cancelled before or after the turn, left to fire, dropped with the instance"""
+    emit("newtop 4 8")
+    if ops is None:
+        ops = []; n = 0
+        for _ in range(rng.randint(2, 7)):
+            r = rng.random()
+            if r < 0.35 and n < 5: ops.append("iproc %d" % rng.choice([1, 1, 0])); n += 1
+            elif r < 0.60 and n: ops.append("iproccancel %d" % rng.randrange(n))
+            elif r < 0.85: ops.append("itick")
+            elif r < 0.93: ops.append("ilater")
+            else: ops.append("itimer 0")
+        ops.append("itick")
+    for o in ops: emit(o)
+    if rng.random() < 0.5: emit("unref 0"); emit("iunref")
+    emit("end")
+
 TEXTF_LENS = list(range(250, 261)) + list(range(510, 515)) + list(range(1022, 1027))
 def gen_textf_history(rng, n, pre):
     """tickit_renderbuffer_textf_at whose formatted text is as long as the scratch block (256 bytes at first, doubled until it
@@ -1239,11 +1257,19 @@ if a.tier == "exhaustive":
     nkd = 0
     for k in range(0, 6):
         gen_kids_history(rng, k, list(range(0, k + 2))); nkd += 1
-    info = {"get_children_histories": nkd, "textf_scratch_histories": ntf, "keychain_histories": nkc, "iowatch_histories": nio_h, "wide_linerun_histories": nwr, "termout_histories": no, "timer_callback_histories": nwt, "drag_histories": ndr, "mock_display_histories": nm, "terminput_histories": nt, "toplevel_histories": ni, "mock_resize_histories": nr, "sigwinch_histories": nsw}
+    # process watches: all sequences of <=3 operations over {watch an exited child, watch a running child, cancel the first,
+    # cancel the second, one loop turn}, followed by a loop turn
+    npw = 0
+    import itertools
+    for ln in range(1, 4):
+        for seq in itertools.product(["iproc 1", "iproc 0", "iproccancel 0", "iproccancel 1", "itick"], repeat=ln):
+            if not seq[0].startswith("iproc "): continue
+            gen_procwatch_history(rng, list(seq) + ["itick"]); npw += 1
+    info = {"process_watch_histories": npw, "get_children_histories": nkd, "textf_scratch_histories": ntf, "keychain_histories": nkc, "iowatch_histories": nio_h, "wide_linerun_histories": nwr, "termout_histories": no, "timer_callback_histories": nwt, "drag_histories": ndr, "mock_display_histories": nm, "terminput_histories": nt, "toplevel_histories": ni, "mock_resize_histories": nr, "sigwinch_histories": nsw}
     info.update({"exhaustive_bound": "all sequences of <=3 (and a seed-selected quarter of the length-4) operations over a 13-letter lifecycle alphabet on root>1>2, 3 sibling of 1, one pen, one self-unref key handler; each followed by flush and end; tickit_mockterm_get_display_text with every buffer length (short of the known exact-fill overflow) for every span of five fixed lines of multi-byte, double-width and combining cells; all sequences of <=3 operations over a 12-letter alphabet of terminal input calls with a quitting key handler on the terminal, and over a 14-letter alphabet of toplevel-instance calls on root>1>2; tickit_mockterm_resize from 3x4 to every size of 1..5 x 1..6 and on to a second size; all sequences of <=2 (and half of those of 3) operations over a 12-letter alphabet of observe/stop/destroy/SIGWINCH on four observing terminals; all sequences of <=3 (and a third of those of 4) operations over a 10-letter alphabet of output-buffer lengths, printing, flushing, cursor movement and the 19-parameter pen on an xterm terminal with both capabilities; all sequences of <=3 operations over a 10-letter alphabet of timers and deferred calls whose callbacks register further (past, present, future) timers and deferred calls; 576 drags on root>1>2 (8 handler behaviours of the source x bound before/after the press x claiming or not x 6 ways of dropping the chain afterwards x 3 continuations); 324 key dispatches on root>1>2>3 focused on 3 (handler on 1/2/3 hiding, closing or showing 1/2/3, passing or keeping the key, chain shown or hidden at 1 or 2); 144 histories of I/O watches readable in one poll turn whose first callback registers 0..5 further watches and cancels itself or a neighbour; runs of 84..87 and 171..172 LINE cells flushed from a 200-column render buffer to the xterm and the mock terminal", "histories": nh})
 else:
     scale = 1 if a.tier == "quick" else 5
-    fams = {"tree": 700, "handlers": 700, "foreign": 400, "objects": 400, "pens": 400, "copyout": 400, "terminput": 500, "toplevel": 500, "mockresize": 360, "sigwinch": 400, "drag": 400, "timers": 300, "termout": 400, "keychain": 300, "iowatch": 300, "widerb": 60, "textf": 42, "kids": 150}
+    fams = {"tree": 700, "handlers": 700, "foreign": 400, "objects": 400, "pens": 400, "copyout": 400, "terminput": 500, "toplevel": 500, "mockresize": 360, "sigwinch": 400, "drag": 400, "timers": 300, "termout": 400, "keychain": 300, "iowatch": 300, "widerb": 60, "textf": 42, "kids": 150, "procwatch": 120}
     if a.families:
         fams = {k: v for k, v in fams.items() if k in a.families.split(",")}
     for fam, n in fams.items():
@@ -1265,6 +1291,7 @@ else:
             elif fam == "iowatch": gen_iowatch_history(rng)
             elif fam == "widerb": gen_widerb_history(rng)
             elif fam == "kids": gen_kids_history(rng)
+            elif fam == "procwatch": gen_procwatch_history(rng)
             elif fam == "textf": gen_textf_history(rng, TEXTF_LENS[_ % len(TEXTF_LENS)], [] if _ < len(TEXTF_LENS) else rng.choice([[300], [TEXTF_LENS[_ % len(TEXTF_LENS)] - 1], [600, 512], [1030], [257]]))
             else: gen_copyout_history(rng)
             fam_count[fam] = fam_count.get(fam, 0) + 1
